@@ -16,6 +16,7 @@ Doc == JsonDeserialize(IOEnv.TRACE_FILE)
 Recs == Doc.records
 KnownMassOnly == Doc.known_massonly
 KnownUnbacked == Doc.known_unbacked
+KnownArz == Doc.known_arz
 ASSUME TLCSet(1, {}) /\ TLCSet(2, [t \in 1..Len(Recs) |-> 0]) /\ TLCSet(3, {})
 Rec == Recs[tid]
 NStages == 5
@@ -32,10 +33,11 @@ Note(code) == TLCSet(3, TLCGet(3) \cup {<<tid, code>>})
 Stage(k) ==
     CASE k = 1 -> Rec.written
       [] k = 2 -> /\ FoldOfLines.ok
-                  /\ IF Same(FoldOfLines, Built) THEN TRUE
-                     ELSE (KnownMassOnly /\ HasMassOnly(Built) /\ Same(FoldOfLines, Shifted(Built)) /\ Note("mass-without-charge"))
-      [] k = 3 -> Same(Rec.read, FoldOfLines)
-      [] k = 4 -> Same(Rec.read2, Rec.read)
+                  /\ IF SameFast(FoldOfLines, Built) THEN TRUE
+                     ELSE IF KnownMassOnly /\ HasMassOnly(Built) /\ SameFast(FoldOfLines, Shifted(Built)) THEN Note("mass-without-charge")
+                     ELSE (KnownArz /\ SameFastX(FoldOfLines, Built, {"angle_restraints_z"}) /\ Note("angle-restraints-z-reversed"))
+      [] k = 3 -> SameFast(Rec.read, FoldOfLines)      \* (a listing the writer turned round is returned as written)
+      [] k = 4 -> SameFast(Rec.read2, Rec.read)
       [] OTHER -> (Len(Rec.missing) = 0 =>
                       /\ GraphOf(Rec.rg) = ReadResGraph(FoldOfLines) /\ GraphOf(Rec.rg2) = GraphOf(Rec.rg)
                       /\ IF GraphOf(Rec.rg) = GraphOf(Rec.req) THEN TRUE
